@@ -18,8 +18,32 @@ def cases(draw, tier):
     n = len(spec["sites"])
     nsw = draw(st.integers(0, 6)) if n >= 2 else 0
     swaps = [draw(st.integers(0, n - 2)) for _ in range(nsw)]
+    g = draw(st.sampled_from([1.0, 1.0, 1.0, 1.0, 1e-9, 1e-6, 1e6]))
+    if g != 1.0:
+        # overall scale of the operator (weak couplings / other energy units): exactness is relative to the operator's own scale
+        terms = [dict(t, f=[t["f"][0] * g, t["f"][1] * g]) for t in terms]
+        off = off * g
+        flags = list(flags) + [f"global_scale_{g:g}"]
     return {"model": spec, "terms": terms, "flags": flags, "offset": off, "swaps": swaps,
             "swap_algo": draw(st.sampled_from(["Hopcroft-Karp", "Hungarian", "qr"]))}
+
+
+def many_term_case(seed, k, nterms):
+    """8 spins, 5 non-trivial local operators per site, `nterms` random product terms: bond dimensions of several hundred
+    (index arithmetic beyond one byte), dense dimension 256"""
+    rng = np.random.default_rng(seed * 100 + k)
+    syms = ["sigma_x", "sigma_z", "sigma_+", "sigma_-", "sigma_+ sigma_-"]
+    n = 8
+    seen, terms = set(), []
+    while len(terms) < nterms:
+        pick = tuple(int(v) for v in rng.integers(0, len(syms) + 1, size=n))  # len(syms) = identity (site omitted)
+        if pick in seen or all(v == len(syms) for v in pick):
+            continue
+        seen.add(pick)
+        f = float(np.round(rng.uniform(0.1, 2.0) * rng.choice([-1.0, 1.0]), 6))
+        terms.append({"f": [f, 0.0], "ops": [[i, syms[v], []] for i, v in enumerate(pick) if v < len(syms)]})
+    spec = {"names": 0, "sites": [{"k": "spin"} for _ in range(n)], "qnmode": 0}
+    return {"model": spec, "terms": terms, "flags": ["many_terms"], "offset": 0.0, "swaps": [], "swap_algo": "Hopcroft-Karp"}
 
 
 def _consistency_class(e):
@@ -63,6 +87,18 @@ def _f55(spec, sig, msg):
     return False
 
 
+def _f58(spec, sig, msg):
+    """QR swap of a graph-built operator with physical factors below 1e-9 in absolute value (structural 1.0 next to them)"""
+    import re
+    if spec.get("swap_algo") != "qr" or not spec.get("swaps"):
+        return False
+    mags = [abs(complex(*t["f"])) for t in spec["terms"]]
+    mags = [x for x in mags if x > 0]
+    if not mags or min(mags) >= 1e-9:
+        return False
+    return bool(re.match(r"^(swap|swap_refused_and_wrong)\.(Hopcroft-Karp|Hungarian)(\.exc\.AssertionError@symbolic_mpo\.py:swap_site)?$", sig))
+
+
 class C01(Prop):
     id = "C01"
     rule = ("Hypothesis draws (model of 1-6 sites over all basis kinds, term table with duplicate / cancelling / shared-prefix / "
@@ -76,7 +112,13 @@ class C01(Prop):
     known_matchers = {
         "F15": lambda spec, sig, msg: sig == "swap.selfcheck_refuses_correct_swap" and spec.get("swap_algo") == "qr",
         "F55": lambda spec, sig, msg: _f55(spec, sig, msg),
+        "F58": lambda spec, sig, msg: _f58(spec, sig, msg),
     }
+
+    def finite_cases(self, tier):
+        import os
+        seed = int(os.environ.get("VERIF_SEED", "1") or 1)
+        return [many_term_case(seed, k, 1500) for k in range(1 if tier == "quick" else 4)]
 
     def budget(self, tier):
         return dict(examples=800, shards=16) if tier == "quick" else dict(examples=30000, shards=16)
